@@ -508,7 +508,7 @@ def _mk_verify(cv, d, z, k, cls, a1, a2):
 def _structured(sel, n):
     """a scalar in [1, n-1] with regular bit structure, chosen by sel (block width, block value, total width)"""
     m = 2 + (sel >> 20) % (n.bit_length() - 1)
-    if sel % 3 == 0:
+    if sel % 2 == 0:
         # j * (2^m - 1) / k: the repeating binary expansions of j/k (0x5555.., 0xaaaa.., 0x3333.., 0x2492.., ...), whose small
         # multiples 3e, 5e, ... fall just below a power of two - where NAF / window recoding and float logarithms slip
         k = [3, 3, 3, 5, 7, 9, 15, 17][(sel >> 4) % 8]
@@ -869,7 +869,7 @@ SUBCHECKS = [
                   "algebraically) and r differ; z vs z+n is generated but not asserted (RFC 6979 maps them to one nonce)"),
     SubCheck("verify_iff_equation", o_verify, strategy=s_verify, budget=(2000, 40000), nontrivial=nt_verify,
              rule="secp256k1 + secp256r1, shipped and explicit-OpenSSL: " + _R_VERIFY),
-    SubCheck("verify_iff_equation_pure", o_verify_pure, strategy=s_verify, budget=(160, 2000), nontrivial=nt_verify,
+    SubCheck("verify_iff_equation_pure", o_verify_pure, strategy=s_verify, budget=(320, 4000), nontrivial=nt_verify,
              rule="pure-Python generators: " + _R_VERIFY),
     SubCheck("verify_native_none", o_verify_native_none, strategy=s_verify, budget=(96, 800), nontrivial=nt_verify,
              rule="shipped generators inside a PYCOIN_NATIVE=none child: " + _R_VERIFY),
